@@ -28,6 +28,20 @@ pub fn complete_parent(i: usize, n: usize) -> (p: usize)
     ensures p < n, p == spec_parent(i, n), rem(p, n) == rem(i, n) - 1,
 { unimplemented!() }
 
+/// imported (Kani: complete_root_spec + spec_depth_decreases_along_parent): the root is the one index with no steps left
+#[verifier::external_body]
+pub fn complete_root(n: usize) -> (r: usize)
+    requires 1 <= n <= MAXN,
+    ensures r < n, forall|i: usize| i < n ==> ((i == r) <==> (#[trigger] rem(i, n) == 0)),
+{ unimplemented!() }
+
+/// imported (Kani: audit_path_len_spec): number of steps from tree index i to the root, None outside the domain
+#[verifier::external_body]
+pub fn audit_path_len(i: usize, n: usize) -> (r: Option<usize>)
+    ensures (n <= MAXN && i < n) ==> r == Some(rem(i, n) as usize) && rem(i, n) <= usize::MAX,
+            !(n <= MAXN && i < n) ==> r is None,
+{ unimplemented!() }
+
 #[verifier::external_body]
 pub fn combine(left: &[u8], right: &[u8]) -> (r: [u8; 32])
     ensures r@ == spec_combine(left@, right@),
@@ -45,6 +59,12 @@ pub fn vx_chunk(v: &Vec<u8>, n: usize, k: usize) -> (r: &[u8])
     requires n > 0, (k as int) < chunk_count(v@.len() as int, n as int),
     ensures r@ == v@.subrange(k as int * n as int, if (k as int + 1) * (n as int) <= v@.len() { (k as int + 1) * n as int } else { v@.len() as int }),
 { unimplemented!() }
+
+// R13: `==` on Option<usize> / [u8; 32] (PartialEq of std types) through specified stand-ins
+#[verifier::external_body]
+pub fn vx_opt_eq(a: Option<usize>, b: Option<usize>) -> (r: bool) ensures r == (a == b) { unimplemented!() }
+#[verifier::external_body]
+pub fn vx_arr_eq(a: &[u8; 32], b: &[u8; 32]) -> (r: bool) ensures r == (a@ == b@) { unimplemented!() }
 
 // ---- the RFC 6962 audit-path fold ------------------------------------------------------------------
 pub open spec fn walk_idx(k: nat, i0: usize, n: usize) -> usize
@@ -68,7 +88,13 @@ impl Proof {
     pub open spec fn wf(&self) -> bool {
         &&& 1 <= self.tree_size.v <= MAXN
         &&& 2 * self.leaf_index < self.tree_size.v
-        &&& self.audit_path@.len() == 32 * rem((2 * self.leaf_index) as usize, self.tree_size.v)
+        &&& self.audit_path@.len() % 32 == 0
+    }
+    pub open spec fn depth(&self) -> nat { rem((2 * self.leaf_index) as usize, self.tree_size.v) }
+    pub open spec fn steps(&self) -> nat { if (self.audit_path@.len() / 32) as nat <= self.depth() { (self.audit_path@.len() / 32) as nat } else { self.depth() } }
+    /// the RFC 6962 reconstruction of the root from this proof and a leaf hash
+    pub open spec fn fold(&self, leaf_hash: Seq<u8>) -> Seq<u8> {
+        walk_acc(self.audit_path@, self.steps(), (2 * self.leaf_index) as usize, self.tree_size.v, leaf_hash)
     }
 }
 '''
@@ -139,32 +165,58 @@ UNIT = dict(
     requires j <= usize::MAX / 2,
     ensures ret == 2 * j,
 """),
+        dict(file=A, path="impl Proof/fn len", spec="    ensures ret == self.audit_path@.len() / 32,\n", no_canary=True),
+        dict(file=A, path="impl Proof/fn has_complete_audit_path",
+             rewrites=[dict(rule="subst", id="R7.crate_path", old="crate::audit_path_len(", new="audit_path_len("),
+                       dict(rule="regex", id="R13.option_eq", old=r"audit_path_len\(([^;]*?)\)\s*==\s*Some\(self\.len\(\)\)", new=r"vx_opt_eq(audit_path_len(\1), Some(self.len()))", count=1)],
+             spec="""
+    requires self.wf(),
+    ensures ret == (self.audit_path@.len() / 32 == self.depth()),
+"""),
         dict(file=A, path="impl Proof/fn reconstruct_root_with_leaf_hash",
              rewrites=["R8.chunks"],
              loops={0: """
     invariant
-        n_ == tree_size.v, i0_ == (2 * *leaf_index) as usize, d_ == rem(i0_, n_),
-        1 <= n_ <= MAXN, audit_path@.len() == 32 * d_,
-        vx_c0 <= d_,
-        i < n_, i == walk_idx(vx_c0 as nat, i0_, n_), rem(i, n_) == d_ - vx_c0,
-        acc@ == walk_acc(audit_path@, vx_c0 as nat, i0_, n_, leaf_hash@),
-    decreases d_ - vx_c0,
+        n_ == tree_size.v, i0_ == (2 * *leaf_index) as usize, d_ == rem(i0_, n_), k_ == audit_path@.len() / 32,
+        1 <= n_ <= MAXN, audit_path@.len() == 32 * k_,
+        vx_c0 <= k_, root < n_, forall|j: usize| j < n_ ==> ((j == root) <==> (#[trigger] rem(j, n_) == 0)),
+        st_ == (if vx_c0 as nat <= d_ { vx_c0 as nat } else { d_ }),
+        i < n_, i == walk_idx(st_, i0_, n_), rem(i, n_) == d_ - st_,
+        acc@ == walk_acc(audit_path@, st_, i0_, n_, leaf_hash@),
+    decreases k_ - vx_c0,
 """},
              ghost=[("before", "let mut vx_c0: usize = 0;",
-                     "let ghost n_ = tree_size.v; let ghost i0_ = (2 * *leaf_index) as usize; let ghost d_ = rem(i0_, n_);\n"
-                     "proof { assert(chunk_count(32 * d_ as int, 32) == d_ as int) by (nonlinear_arith); }"),
+                     "let ghost n_ = tree_size.v; let ghost i0_ = (2 * *leaf_index) as usize; let ghost d_ = rem(i0_, n_); let ghost k_ = (audit_path@.len() / 32) as nat; let ghost mut st_: nat = 0;\n"
+                     "proof { assert(chunk_count(32 * k_ as int, 32) == k_ as int) by (nonlinear_arith); }"),
                     ("after", "vx_c0 += 1;",
-                     "proof { assert((vx_c0 as int - 1) * 32 + 32 == vx_c0 as int * 32) by (nonlinear_arith); assert(vx_c0 as int * 32 <= 32 * d_ as int) by (nonlinear_arith) requires vx_c0 <= d_; }")],
+                     "proof { assert((vx_c0 as int - 1) * 32 + 32 == vx_c0 as int * 32) by (nonlinear_arith); assert(vx_c0 as int * 32 <= 32 * k_ as int) by (nonlinear_arith) requires vx_c0 <= k_; }"),
+                    ("after", "i = parent;", "proof { st_ = st_ + 1; }")],
              spec="""
     requires self.wf(),
     ensures
-        // total (no panic, terminates) and exactly the RFC 6962 fold over the audit path
-        ret@ == walk_acc(self.audit_path@, rem((2 * self.leaf_index) as usize, self.tree_size.v), (2 * self.leaf_index) as usize, self.tree_size.v, leaf_hash@),
+        // total for every decodable proof (no panic, terminates), and exactly the RFC 6962 fold over the
+        // first min(len, depth) path elements
+        ret@ == self.fold(leaf_hash@),
+"""),
+        dict(file=A, path="struct NoLeafHash"),
+        dict(file=A, path="struct NoRoot"),
+        dict(file=A, path="struct WithLeafHash"),
+        dict(file=A, path="struct WithRoot"),
+        dict(file=A, path="struct Audit"),
+        dict(file=A, path="impl Audit<'_, WithLeafHash, WithRoot>/fn perform",
+             rewrites=[dict(rule="regex", id="R13.array_eq", old=r"\*root\s*==\s*proof\.reconstruct_root_with_leaf_hash\(\*leaf_hash\)", new="vx_arr_eq(root, &proof.reconstruct_root_with_leaf_hash(*leaf_hash))", count=1)],
+             spec="""
+    requires self.proof.wf(),
+    ensures
+        // verification: true exactly when the path has one element per step to the root AND the fold equals the claimed root
+        ret == (self.proof.audit_path@.len() / 32 == self.proof.depth() && self.root.root@ == self.proof.fold(self.leaf_hash.leaf_hash@)),
 """),
     ],
     assumptions=[
         "imported contract (proved by Kani on the real function, unit c08_merkle obligation complete_parent::contract#rem-decreases): complete_parent(i,n) for i<n<=MAX/2, rem(i,n)>0 returns p<n with rem(p,n) == rem(i,n)-1",
-        "imported contract (proved by Kani, unit c08_merkle obligation try_into_proof::total+ensures#accepts-exactly-well-formed): every accepted proof satisfies Proof::wf (audit path length == 32*rem)",
+        "imported contract (proved by Kani, unit c08_merkle obligation try_into_proof::total+ensures#accepts-exactly-well-formed): every accepted proof satisfies Proof::wf (1 <= tree_size <= MAX/2, 2*leaf_index < tree_size, path length multiple of 32)",
+        "imported contracts (proved by Kani, unit c08_merkle): complete_root(n) is the unique index with rem == 0 (complete_root_spec + spec_depth_decreases_along_parent); audit_path_len(i,n) == Some(rem(i,n)) on the domain (audit_path_len_spec)",
+        "R13: == on Option<usize> and [u8;32] replaced by specified stand-ins",
         "combine(l,r) is the uninterpreted function spec_combine; H-inj (injectivity = SHA-256 collision resistance) is a hypothesis of the soundness lemma, never an axiom of the unit",
         "R8.chunks: slice::chunks(32) replaced by the specified stand-ins vx_chunk_count/vx_chunk",
         "NonZeroUsize shim (get returns the stored value)",
